@@ -27,7 +27,7 @@ theorem mapSet_eq_set (ps : Params) (k v : Bytes) : GoSem.mapSet ps k v = ps.set
 
 /-- the loop of `match` from position `n` on: the model's `writeBinds` on the rest of the bind list and the submatches from
 `n + 1` on -/
-theorem binds_loop (pre rest : List Bytes) (subm : List Bytes) (ps : Params) (hlen : subm.length = pre.length + rest.length + 1) :
+theorem binds_loop (pre rest : List Bytes) (subm : List Bytes) (ps : Params) (hlen : pre.length + rest.length + 1 ≤ subm.length) :
     GoSem.forRangeCtl (ρ := (Bool × List (Bytes × Bytes))) ((rest.zipIdx pre.length).map fun p => ((p.2 : Int), p.1))
         (fun (i, bind) params =>
           if (bind == ([] : Bytes)) then (GoSem.Ctl.next, params)
